@@ -536,6 +536,67 @@ def fault_part(ctx, real, quick):
                     problems.append((case, "out/t.%s faithful down to level %d" % (h.decode(), depth), "leaf or mid file missing or wrong",
                                      "the copy of a tree %d levels deep from %s is incomplete" % (depth, h.decode()))); break
         shutil.rmtree(root, ignore_errors=True)
+    # (d) a target whose remote side is slow to start (longer than the default connect time-out plus a watchdog round;
+    #     the pipe transport refuses -t): the
+    #     connection is up, so the connect time-out no longer applies; the copy must arrive whole
+    for rep in range(1 if quick else 3):
+        root = os.path.join(base, "slow%d" % rep)
+        tree = ("D", 0o755, 900000000, {b"src": ("D", 0o750, 900000000, {b"big": ("F", 0o604, 1000000000, bytes((11 * i + rep) % 253 for i in range(50000))),
+                                                                          b"sub": ("D", 0o755, 900000001, {b"empty": ("F", 0o644, 1000000002, b"")})}),
+                                        b"single": ("F", 0o644, 1000000003, b"s" * 8192)})
+        for h in HOSTS:
+            tree = put(tree, [h], ("D", 0o755, 900000000, {b"dst": ("D", 0o755, 900000000, {})}))
+        pcpeng.materialize(tree, root)
+        wrap = os.path.join(root, "slowpdcp")
+        with open(wrap, "w") as fh:
+            fh.write("#!/bin/sh\ncase \"$PWD\" in */%s) sleep 14;; esac\nexec %s \"$@\"\n" % (HOSTS[1].decode(), real.path("pdcp")))
+        os.chmod(wrap, 0o755)
+        rc, o, e = real.run(["-Rpcptest", "-e", wrap, "-w", ",".join(h.decode() for h in HOSTS), "-r", "-p", b"src", b"single", b"dst"], prog="pdcp", cwd=root, timeout=60)
+        nruns += 1
+        case = {"kind": "pdcp -r -p src single dst; the remote side of %s needs 14 s to start (connect time-out 10 s)" % HOSTS[1].decode(), "hosts": [h.decode() for h in HOSTS]}
+        cr = pcpeng.crashed(rc, e)
+        if cr:
+            problems.append((case, "exact copies on every target", cr, "pdcp crashed or did not end when one target is slow to start: " + cr)); continue
+        after = pcpeng.snapshot(root)
+        for h in HOSTS:
+            got = lookup(after, [h, b"dst"])
+            want_src, want_single = tree[3][b"src"], tree[3][b"single"]
+            d1 = pcpeng.diff_trees(want_src, got[3].get(b"src", ("D", 0, None, {})))
+            s1 = got[3].get(b"single")
+            if d1 or s1 is None or s1[3] != want_single[3]:
+                problems.append((case, "%s/dst holds exact copies" % h.decode(), "differs at %s; stderr %r" % (d1[:2], e[-200:]),
+                                 "target %s does not hold an exact copy (one target was slow to start: 14 s, connect time-out 10 s)" % h.decode())); break
+        shutil.rmtree(root, ignore_errors=True)
+    # (e) two entries refused by the receivers under a path longer than 2 KiB (the error lines are that long), more files after them
+    for rep in range(1 if quick else 3):
+        root = os.path.join(base, "longerr%d" % rep)
+        names = [bytes([97 + k]) * (240 + rep) for k in range(9)]            # 9 x 240 bytes
+        def nest(leaf, names=names):
+            t = leaf
+            for nm in reversed(names):
+                t = ("D", 0o755, 900000000, {nm: t})
+            return t
+        srcleaf = ("D", 0o755, 900000000, {b"f1": ("F", 0o644, 1000000000, b"one"), b"f2": ("F", 0o644, 1000000001, b"two" * 100), b"g": ("F", 0o600, 1000000002, b"gee\n" * 50)})
+        tree = ("D", 0o755, 900000000, {b"src": nest(srcleaf), b"last": ("F", 0o644, 1000000003, b"last file\n")})
+        # on every target f1 and f2 already exist as directories: the receiver refuses both
+        blocked = ("D", 0o755, 900000000, {b"f1": ("D", 0o755, 900000000, {}), b"f2": ("D", 0o755, 900000000, {})})
+        for h in HOSTS:
+            tree = put(tree, [h], ("D", 0o755, 900000000, {b"dst": ("D", 0o755, 900000000, {b"src": nest(blocked)})}))
+        pcpeng.materialize(tree, root)
+        rc, o, e = real.run(["-Rpcptest", "-w", ",".join(h.decode() for h in HOSTS), "-r", b"src", b"last", b"dst"], prog="pdcp", cwd=root, timeout=60)
+        nruns += 1
+        case = {"kind": "pdcp -r src last dst; src/<2160-byte path>/f1 and f2 are directories on the targets", "hosts": [h.decode() for h in HOSTS]}
+        cr = pcpeng.crashed(rc, e)
+        if cr:
+            problems.append((case, "f1, f2 reported; g and last copied", cr, "pdcp crashed or did not end when two long-named entries are refused: " + cr)); continue
+        after = pcpeng.snapshot(root)
+        for h in HOSTS:
+            gcopy = lookup(after, [h, b"dst", b"src"] + names + [b"g"])
+            lcopy = lookup(after, [h, b"dst", b"last"])
+            if gcopy is None or gcopy[0] != "F" or gcopy[3] != b"gee\n" * 50 or lcopy is None or lcopy[0] != "F" or lcopy[3] != b"last file\n":
+                problems.append((case, "%s: g and last copied" % h.decode(), "g: %s last: %s; stderr tail %r" % (str(gcopy)[:60], str(lcopy)[:60], e[-200:]),
+                                 "files that follow two refused entries with long paths were not copied to %s" % h.decode())); break
+        shutil.rmtree(root, ignore_errors=True)
     return nruns, problems
 
 
